@@ -107,6 +107,12 @@ func vParam(c *vCtx, slot int, name string, lo int64) int64 {
 }
 
 var vCatalog = []vOp{
+	{name: "Just", nsrc: 0,
+		mk: func(c *vCtx) vPipeline {
+			c.p[0], c.p[1] = vInt64("a"), vInt64("b")
+			return vPipe(Just(c.p[0], c.p[1]), vFlatInt)
+		},
+		ref: func(c *vCtx, in []vStep) []vEv { return []vEv{vN(c.p[0]), vN(c.p[1]), vC()} }},
 	{name: "Map", nsrc: 1, cbs: []string{"f"},
 		mk: func(c *vCtx) vPipeline {
 			return vPipe(Map(func(v int64) int64 { vFP("f"); return vUFInt("f", v) })(c.src[0]), vFlatInt)
